@@ -234,6 +234,10 @@ ChangeOK(m, o, m2, o2) == /\ NS(m) = NS(m2) /\ ObsIdx(o) \subseteq ObsIdx(o2)
 \* proposed) under the old one.  The new particle takes the new target's value there (the target's own
 \* constraint wins over the particle's stale value); the weight still changes by the density ratio.
 Dropped(o, o2) == ObsIdx(o2) \ ObsIdx(o)
+\* "an observation is withdrawn": the new target no longer observes sites in Withdrawn; importance draws them afresh
+\* (from their conditional given the new particle's parents) and its weight covers every OTHER site
+Withdrawn(o, o2) == ObsIdx(o) \ ObsIdx(o2)
+LWShrunk(m, o, pr, o2, c, c2) == LW(m, o, pr, c) + SumLP(m, (1..NS(m)) \ Withdrawn(o, o2), c2) - JointLP(m, c)
 LWChanged(m, o, pr, m2, o2, c) == LW(m, o, pr, c) + JointLP(m2, Overlay(c, o2)) - JointLP(m, c)
 
 ---------------------------------------------------------------------------
@@ -311,6 +315,13 @@ Next ==
   \/ /\ sc.kind = "node2" /\ sc.mh = "change"            \* the observed set grows by one site
      /\ \E i \in {j \in 1..NS(Models[sc.m]) : sc.o[j] = Minus1} : \E v \in 0..(Card(Models[sc.m], i) - 1) :
           LET o2 == [sc.o EXCEPT ![i] = v] IN
+          /\ o2 \in ObsSeqs(Models[sc.m])
+          /\ \E p \in 0..NP :
+               /\ ValidScenario(Models[sc.m], sc.o, PropAt(p))
+               /\ sc' = Sc("change", sc.m, sc.o, p, 1, sc.m, o2, {}, "none")
+  \/ /\ sc.kind = "node2" /\ sc.mh = "change"            \* one observation is withdrawn
+     /\ \E i \in ObsIdx(sc.o) :
+          LET o2 == [sc.o EXCEPT ![i] = Minus1] IN
           /\ o2 \in ObsSeqs(Models[sc.m])
           /\ \E p \in 0..NP :
                /\ ValidScenario(Models[sc.m], sc.o, PropAt(p))
@@ -399,7 +410,7 @@ ChangeMass(m, o, pr, m2, o2) ==
   RSum(Latents(m, o), LAMBDA c :
       RMul(Pow2(QLP(m, o, pr, c)), Pow2(LWChanged(m, o, pr, m2, o2, c))))
 ChangeProper ==
-  (sc.kind = "change" /\ Dropped(sc.o, sc.o2) = {}) =>
+  (sc.kind = "change" /\ Dropped(sc.o, sc.o2) = {} /\ Withdrawn(sc.o, sc.o2) = {}) =>
     ChangeMass(Models[sc.m], sc.o, PropAt(sc.p), Models[sc.m2], sc.o2) = ZOf(Models[sc.m2], sc.o2)
 \* when the observed set grows, every new particle is reached from Card(site) old particles (one per
 \* discarded value) and the density-ratio weight has no backward term for the discarded value:
@@ -411,9 +422,17 @@ ChangeGrowMass ==
         n == MapThenFoldSet(LAMBDA a, b : a * b, 1, LAMBDA i : Card(m, i), LAMBDA S : CHOOSE x \in S : TRUE,
                             Dropped(sc.o, sc.o2))
     IN  ChangeMass(m, sc.o, PropAt(sc.p), Models[sc.m2], sc.o2) = RMul(<<n, 1>>, ZOf(Models[sc.m2], sc.o2))
+\* a withdrawn observation is redrawn from the model: the reweighted collection is properly weighted for the new target
+ChangeShrinkMass ==
+  (sc.kind = "change" /\ Withdrawn(sc.o, sc.o2) # {}) =>
+    LET m == Models[sc.m]  W == Withdrawn(sc.o, sc.o2)  pr == PropAt(sc.p) IN
+    RSum(Latents(m, sc.o), LAMBDA c :
+       RSum({c2 \in Latents(m, sc.o2) : \A i \in (1..NS(m)) \ W : c2[i] = c[i]}, LAMBDA c2 :
+          RMul(RMul(Pow2(QLP(m, sc.o, pr, c)), Pow2(SumLP(m, W, c2))), Pow2(LWShrunk(m, sc.o, pr, sc.o2, c, c2)))))
+      = ZOf(m, sc.o2)
 \* the changed particle always satisfies the new constraint and keeps the other latents
 ChangeParticle ==
-  sc.kind = "change" =>
+  (sc.kind = "change" /\ Withdrawn(sc.o, sc.o2) = {}) =>
     \A c \in Latents(Models[sc.m], sc.o) :
        /\ Agrees(Overlay(c, sc.o2), sc.o2)
        /\ \A i \in 1..Len(c) : sc.o2[i] = Minus1 => Overlay(c, sc.o2)[i] = c[i]
@@ -510,6 +529,7 @@ EmitCase ==
       [] sc.kind = "change" ->
            PrintT(<<"CASE", ToJson([kind |-> "change", model |-> Models[sc.m].name, o |-> sc.o,
                                     prop |-> PropAt(sc.p).name, model2 |-> Models[sc.m2].name,
-                                    o2 |-> sc.o2, grow |-> (Dropped(sc.o, sc.o2) # {})])>>)
+                                    o2 |-> sc.o2, grow |-> (Dropped(sc.o, sc.o2) # {}),
+                                    shrink |-> (Withdrawn(sc.o, sc.o2) # {})])>>)
       [] OTHER -> TRUE
 =============================================================================
